@@ -27,7 +27,49 @@ def canon(tree):
                 and isinstance(n.test, ast.UnaryOp) and isinstance(n.test.op, ast.Not):
             n.test = n.test.operand
             n.body, n.orelse = n.orelse, n.body
+        # isinstance(x, A | B) and isinstance(x, (A, B)) are the same test
+        if isinstance(n, ast.Call) and isinstance(n.func, ast.Name) \
+                and n.func.id == "isinstance" and len(n.args) == 2 \
+                and isinstance(n.args[1], ast.BinOp) and isinstance(n.args[1].op, ast.BitOr):
+            parts = []
+
+            def flat(x):
+                if isinstance(x, ast.BinOp) and isinstance(x.op, ast.BitOr):
+                    flat(x.left)
+                    flat(x.right)
+                else:
+                    parts.append(x)
+            flat(n.args[1])
+            tup = ast.Tuple(elts=parts, ctx=ast.Load())
+            ast.copy_location(tup, n.args[1])
+            n.args[1] = tup
+        # a literal compared with == / != / is stands on the right
+        if isinstance(n, ast.Compare) and len(n.ops) == 1 and isinstance(
+                n.ops[0], (ast.Eq, ast.NotEq, ast.Is, ast.IsNot)) \
+                and ((_is_lit(n.left) and not _is_lit(n.comparators[0]))
+                     or (_is_const_name(n.left) and not _is_const_name(n.comparators[0])
+                         and not _is_lit(n.comparators[0]))):
+            n.left, n.comparators = n.comparators[0], [n.left]
     return tree
+
+
+def _is_const_name(x):
+    """Enum.MEMBER / CONSTANT / module.CONSTANT: the constant side of a comparison"""
+    while isinstance(x, ast.Attribute):
+        if x.attr.isupper():
+            return True
+        x = x.value
+    return isinstance(x, ast.Name) and x.id.isupper()
+
+
+def _is_lit(x):
+    if isinstance(x, ast.Constant):
+        return True
+    if isinstance(x, ast.UnaryOp) and isinstance(x.operand, ast.Constant):
+        return True
+    if isinstance(x, (ast.Tuple, ast.List)):
+        return all(_is_lit(e) for e in x.elts)
+    return False
 
 
 _MV = "MV__"
@@ -82,6 +124,19 @@ def match(p, n, env) -> bool:
             and len(p.targets) == 1:
         return match(p.targets[0], n.target, env) and match(p.value, n.value, env)
     if type(p) is not type(n):
+        return False
+    if isinstance(p, ast.Compare) and len(p.ops) == 1 and len(n.ops) == 1 \
+            and type(p.ops[0]) is type(n.ops[0]) \
+            and isinstance(p.ops[0], (ast.Eq, ast.NotEq, ast.Is, ast.IsNot)):
+        # symmetric operators match in either operand order
+        e1 = dict(env)
+        if match(p.left, n.left, e1) and match(p.comparators[0], n.comparators[0], e1):
+            env.update(e1)
+            return True
+        e2 = dict(env)
+        if match(p.left, n.comparators[0], e2) and match(p.comparators[0], n.left, e2):
+            env.update(e2)
+            return True
         return False
     if isinstance(p, ast.Call) and p.keywords and all(k.arg is not None for k in p.keywords) \
             and all(k.arg is not None for k in n.keywords):
@@ -280,7 +335,7 @@ def alpha(text: str) -> str:
                 return n
             ren.setdefault(n.id, f"v{len(ren)}")
             return ast.copy_location(ast.Name(id=ren[n.id], ctx=n.ctx), n)
-    out = ast.unparse(V().visit(tree))
+    out = ast.unparse(V().visit(canon(tree)))
     if suffix:
         out = out.split(":\n")[0] if out.endswith("pass") else out
     return " ".join(out.split())
